@@ -182,17 +182,76 @@ Proof.
   rewrite error_status_5xx_iff. split; congruence.
 Qed.
 
+(* ---- the decision functions of the handlers never answer internal_error ---- *)
+Ltac ni := repeat break_goal; try congruence; try discriminate.
+Lemma validate_jwt_ni l lw p t j : validate_jwt l lw p t j <> Some EInternalError.
+Proof. unfold validate_jwt. ni. Qed.
+Lemma validate_binding_dpop_ni cfg c b o : validate_binding_dpop cfg c b o <> Some EInternalError.
+Proof. unfold validate_binding_dpop. ni; apply validate_jwt_ni. Qed.
+Lemma validate_binding_tls_ni cfg c b o : validate_binding_tls cfg c b o <> Some EInternalError.
+Proof. unfold validate_binding_tls. ni. Qed.
+Lemma validate_binding_ni cfg c b o : validate_binding cfg c b o <> Some EInternalError.
+Proof.
+  unfold validate_binding, validate_binding_required.
+  pose proof (validate_binding_dpop_ni cfg c b o). pose proof (validate_binding_tls_ni cfg c b o). ni.
+Qed.
+Lemma validate_pkce_ni cfg v s : validate_pkce cfg v s <> Some EInternalError.
+Proof. unfold validate_pkce. ni. Qed.
+Lemma validate_pop_ni b t j x : validate_pop b t j x <> Some EInternalError.
+Proof.
+  unfold validate_pop. destruct (b_dpop b) as [p|]; [pose proof (validate_jwt_ni jwt_lifetime jwt_leeway p t j)|]; ni.
+Qed.
+Lemma refresh_binding_ni cfg c b g : refresh_binding cfg c b g <> Some EInternalError.
+Proof.
+  unfold refresh_binding.
+  pose proof (validate_pop_ni b 0 (g_jkt g) (g_x5t g)).
+  pose proof (validate_binding_dpop_ni cfg c b (mkBindOpts false 0 true 0)).
+  pose proof (validate_binding_tls_ni cfg c b (mkBindOpts true (g_x5t g) false 0)). ni.
+Qed.
+Definition aerr_code (a : aerr) : ecode := match a with ALocal e | ARedirect e _ => e end.
+Lemma validate_optionals_ni cfg p c a : validate_optionals cfg p c = Some a -> aerr_code a <> EInternalError.
+Proof. unfold validate_optionals. repeat break_goal; intros H; inversion H; cbn; discriminate. Qed.
+Lemma validate_params_ni cfg p c a : validate_params cfg p c = Some a -> aerr_code a <> EInternalError.
+Proof.
+  unfold validate_params. pose proof (validate_optionals_ni cfg p c) as HO.
+  destruct (validate_optionals cfg p c) as [x|]; repeat break_goal; intros H; inversion H; subst; cbn; try discriminate; auto.
+Qed.
+Lemma validate_in_out_ni cfg i o c a : validate_in_out cfg i o c = Some a -> aerr_code a <> EInternalError.
+Proof.
+  unfold validate_in_out. pose proof (validate_optionals_ni cfg o c) as HO.
+  pose proof (validate_params_ni cfg (merge_params i o) c) as HP.
+  destruct (validate_optionals cfg o c) as [x|]; destruct (validate_params cfg (merge_params i o) c) as [y|];
+    repeat break_goal; intros H; inversion H; subst; cbn; try discriminate; auto.
+Qed.
+
 (* ========================================================================================== *)
 (* Part 3: the handlers                                                                        *)
 (* ========================================================================================== *)
 
 Local Opaque contains_all_scopes are_scopes_allowed validate_binding validate_pkce refresh_binding
        validate_params validate_optionals validate_in_out merge_params validate_jwt validate_pop
-       validate_binding_dpop validate_binding_tls set_pop_jkt set_pop_x5t tokens_out
+       validate_binding_dpop validate_binding_tls set_pop_jkt set_pop_x5t
        contains_openid nav_mode rt_contains make_token classify has_grant mint.
 
 Ltac crunch := repeat (cbn in *; intros; try break_goal).
-Ltac done := cbn in *; intros; try discriminate; try congruence; auto.
+(* destruct the innermost scrutinee first (so that a match producing the pair consumed by
+   run_seq's let is never destructed as a whole) *)
+Ltac innermost x :=
+  match x with
+  | context [match ?y with _ => _ end] => innermost y
+  | context [if ?y then _ else _] => innermost y
+  | _ => first [is_var x; destruct x | let E := fresh "E" in destruct x eqn:E]
+  end.
+Ltac break_inner :=
+  match goal with
+  | |- context [match ?x with _ => _ end] => innermost x
+  | |- context [if ?x then _ else _] => innermost x
+  end.
+Ltac crunch0 := repeat (cbn; unfold reply_a, reply_g; try break_inner).
+Ltac done := cbn in *; intros; try discriminate; try congruence; auto;
+  try solve [exfalso;
+    first [ eapply validate_binding_ni; eassumption | eapply validate_pkce_ni; eassumption
+          | eapply refresh_binding_ni; eassumption | eapply validate_pop_ni; eassumption ]].
 
 (* ---- the sequential run and the faulty run with a fault-free plan coincide ---- *)
 Definition no_faults : nat -> fault := fun _ => FNone.
@@ -356,3 +415,144 @@ Lemma handlers_never_panic_alias w n now o st : np_obs (snd (run_alias (handler 
 Proof. apply leaves_run_alias, handler_np. Qed.
 Lemma handlers_never_panic_fault w n now o plan st : np_obs (snd (fst (run_fault plan 0 (handler w n now o) st))).
 Proof. apply leaves_run_fault, handler_np. Qed.
+
+(* ========================================================================================== *)
+(* Part 4: 5xx only when the embedder failed; refused requests leave the store alone           *)
+(* ========================================================================================== *)
+
+Lemma run_seq_bind {A B} (p : prog A) (f : A -> prog B) : forall st,
+  run_seq (bind p f) st = run_seq (f (snd (run_seq p st))) (fst (run_seq p st)).
+Proof.
+  induction p as [a|c k IH|o p IH]; intros st; cbn; auto.
+  destruct (exec c st) as [st' r]. apply IH.
+Qed.
+Lemma get_client_frame w i st : fst (run_seq (get_client w i) st) = st.
+Proof. unfold get_client. destruct (find_client i (w_static w)); cbn; [reflexivity|]. destruct (find_client i (st_clients st)); reflexivity. Qed.
+Lemma authenticated_frame w cr st : fst (run_seq (authenticated w cr) st) = st.
+Proof.
+  unfold authenticated. destruct (is_nil (cr_id cr)); [reflexivity|].
+  rewrite run_seq_bind, get_client_frame. destruct (snd (run_seq (get_client w (cr_id cr)) st)); [|reflexivity].
+  destruct (orb _ _); reflexivity.
+Qed.
+Lemma introspection_info_frame now p st : fst (run_seq (introspection_info now p) st) = st.
+Proof.
+  unfold introspection_info. destruct (classify p); cbn; [reflexivity| |].
+  - destruct (find _ _); cbn; [|reflexivity]. destruct (geb _ _); reflexivity.
+  - destruct (find _ _); cbn; [|reflexivity]. destruct (geb _ _); reflexivity.
+Qed.
+
+(* enter a handler past client authentication: the store is unchanged, the client is oc *)
+Ltac past_auth_k tac :=
+  rewrite !run_seq_bind, !authenticated_frame;
+  match goal with |- context [snd (run_seq (authenticated ?w ?cr) ?st)] =>
+    let oc := fresh "oc" in generalize (snd (run_seq (authenticated w cr) st)); intros oc;
+    destruct oc as [c|]; [|tac] end.
+Ltac past_auth := past_auth_k ltac:(solve [done]).
+
+(* ---- the token endpoint and introspection: an internal_error answer means the scripted
+        embedder reply failed (the storage never fails under run_seq) ---- *)
+Lemma code_grant_5xx w n now r st :
+  is_internal (snd (run_seq (code_grant w n now r) st)) = true -> t_hg r = HgFail.
+Proof.
+  unfold code_grant. repeat (break_goal; [solve [done]|]). past_auth. destruct (t_hg r); [| |reflexivity]; crunch0; done.
+Qed.
+Lemma refresh_grant_5xx w n now r st :
+  is_internal (snd (run_seq (refresh_grant w n now r) st)) = true -> t_hg r = HgFail.
+Proof.
+  unfold refresh_grant. repeat (break_goal; [solve [done]|]). past_auth. destruct (t_hg r); [| |reflexivity]; crunch0; done.
+Qed.
+Lemma cc_grant_5xx w n now r st :
+  is_internal (snd (run_seq (cc_grant w n now r) st)) = true -> t_hg r = HgFail.
+Proof.
+  unfold cc_grant. repeat (break_goal; [solve [done]|]). past_auth. destruct (t_hg r); [| |reflexivity]; crunch0; done.
+Qed.
+Lemma ciba_grant_5xx w n now r st :
+  is_internal (snd (run_seq (ciba_grant w n now r) st)) = true -> t_hg r = HgFail \/ t_ba r = BaFail.
+Proof.
+  unfold ciba_grant. repeat (break_goal; [solve [done]|]). past_auth.
+  destruct (t_hg r); [| |left; reflexivity]; (destruct (t_ba r); [| | | |right; reflexivity]); crunch0; done.
+Qed.
+Lemma introspect_5xx w now r st : is_internal (snd (run_seq (introspect w now r) st)) = false.
+Proof.
+  unfold introspect. repeat (break_goal; [solve [done]|]).
+  rewrite run_seq_bind, authenticated_frame.
+  destruct (snd (run_seq (authenticated w (q_cred r)) st)); [|solve [done]].
+  destruct (negb (q_allowed r)); [solve [done]|]. destruct (q_tok r); try done; rewrite run_seq_bind; reflexivity.
+Qed.
+Lemma revoke_5xx w now r st : is_internal (snd (run_seq (revoke w now r) st)) = false.
+Proof.
+  unfold revoke. repeat (break_goal; [solve [done]|]).
+  rewrite run_seq_bind, authenticated_frame.
+  destruct (snd (run_seq (authenticated w (q_cred r)) st)); [|solve [done]].
+  destruct (negb (q_allowed r)); [solve [done]|]. rewrite run_seq_bind.
+  destruct (negb (in_active _)); [solve [done]|]. destruct (negb (ideq _ _)); done.
+Qed.
+Lemma userinfo_5xx w now r st : is_internal (snd (run_seq (userinfo w now r) st)) = false.
+Proof.
+  unfold userinfo. destruct (negb (u_has_header r)); [reflexivity|].
+  destruct (extract_id (u_tok r)); [|destruct (u_tok r); reflexivity].
+  cbn. destruct (find _ _) as [g|]; cbn; [|reflexivity].
+  destruct (geb _ _); [reflexivity|]. destruct (negb _); [reflexivity|].
+  destruct (validate_pop _ _ _ _) eqn:EP.
+  { cbn. destruct e; try reflexivity. exfalso. eapply validate_pop_ni; eauto. }
+  rewrite run_seq_bind. destruct (snd (run_seq (get_client w (g_client g)) _)); reflexivity.
+Qed.
+
+(* ---- frames ---- *)
+Definition code_frame (code : id) (st st' : store) : Prop :=
+  st' = st
+  \/ (exists g, find (fun g => ideq (g_code g) code) (st_gsess st) = Some g /\
+                st' = st <| st_gsess := del_gsess (g_id g) (st_gsess st) |>)
+  \/ (exists s, find (fun s => ideq (a_code s) code) (st_asess st) = Some s /\
+                st' = st <| st_asess := del_asess (a_id s) (st_asess st) |>).
+Definition refresh_frame (tok : id) (st st' : store) : Prop :=
+  st' = st
+  \/ (exists g, find (fun g => ideq (g_refresh g) tok) (st_gsess st) = Some g /\
+                st' = st <| st_gsess := del_gsess (g_id g) (st_gsess st) |>).
+Definition ciba_frame (a : id) (st st' : store) : Prop :=
+  st' = st
+  \/ (exists s, find (fun s => ideq (a_ciba s) a) (st_asess st) = Some s /\
+                st' = st <| st_asess := del_asess (a_id s) (st_asess st) |>).
+
+Ltac frame_leaf :=
+  cbn in *; intros; try discriminate;
+  first [ left; reflexivity
+        | right; left; eexists; split; [first [eassumption|reflexivity]|reflexivity]
+        | right; right; eexists; split; [first [eassumption|reflexivity]|reflexivity]
+        | right; eexists; split; [first [eassumption|reflexivity]|reflexivity] ].
+
+Lemma code_grant_frame w n now r st e :
+  snd (run_seq (code_grant w n now r) st) = OErr e ->
+  code_frame (t_code r) st (fst (run_seq (code_grant w n now r) st)).
+Proof.
+  unfold code_grant, code_frame. repeat (break_goal; [frame_leaf|]). past_auth_k ltac:(idtac; frame_leaf).
+  destruct st as [cl ass gs]. crunch0; frame_leaf.
+Qed.
+Lemma refresh_grant_frame w n now r st e :
+  snd (run_seq (refresh_grant w n now r) st) = OErr e ->
+  refresh_frame (t_refresh r) st (fst (run_seq (refresh_grant w n now r) st)).
+Proof.
+  unfold refresh_grant, refresh_frame. repeat (break_goal; [frame_leaf|]). past_auth_k ltac:(idtac; frame_leaf).
+  destruct st as [cl ass gs]. crunch0; frame_leaf.
+Qed.
+Lemma cc_grant_frame w n now r st e :
+  snd (run_seq (cc_grant w n now r) st) = OErr e -> fst (run_seq (cc_grant w n now r) st) = st.
+Proof.
+  unfold cc_grant. repeat (break_goal; [solve [done]|]). past_auth.
+  destruct st as [cl ass gs]. crunch0; done.
+Qed.
+Lemma ciba_grant_frame w n now r st e :
+  snd (run_seq (ciba_grant w n now r) st) = OErr e ->
+  ciba_frame (t_auth_req r) st (fst (run_seq (ciba_grant w n now r) st)).
+Proof.
+  unfold ciba_grant, ciba_frame. repeat (break_goal; [frame_leaf|]). past_auth_k ltac:(idtac; frame_leaf).
+  destruct st as [cl ass gs]. crunch0; frame_leaf.
+Qed.
+Lemma introspect_frame w now r st : fst (run_seq (introspect w now r) st) = st.
+Proof.
+  unfold introspect. repeat (break_goal; [solve [done]|]).
+  rewrite run_seq_bind, authenticated_frame.
+  destruct (snd (run_seq (authenticated w (q_cred r)) st)); [|solve [done]].
+  destruct (negb (q_allowed r)); [solve [done]|].
+  destruct (q_tok r); try done; rewrite run_seq_bind; cbn; apply introspection_info_frame.
+Qed.
